@@ -100,6 +100,11 @@ pub fn run(args: &[String]) -> i32 {
                     if rnd(&mut x) % 5 == 0 {
                         std::thread::yield_now();
                     }
+                    // a writer that finds the memtable full seals it itself (what fjall does),
+                    // concurrently with whatever the flusher is doing
+                    if rnd(&mut x) % 9 == 0 {
+                        tree.rotate_memtable();
+                    }
                 }
             }));
         }
